@@ -613,6 +613,9 @@ func (g *rgen) txCall(n *SNode, env *tenv) tval {
 		a, b := g.tx(n.Args[0], env), g.tx(n.Args[1], env)
 		g.helpers["minmax"] = true
 		return tval{code: "v" + n.Name + "(" + g.i64(a) + ", " + g.i64(b) + ")", kind: "int"}
+	case "umul":
+		a, b := g.tx(n.Args[0], env), g.tx(n.Args[1], env)
+		return tval{code: "(" + g.i64(a) + " * " + g.i64(b) + ")", kind: "int"}
 	case "allocated":
 		return tval{code: "true", t: tb, kind: "bool"}
 	case "fresh":
